@@ -1122,7 +1122,48 @@ def check_multi(chk, pid, case):
         _fail(chk, 'multi-product|activity-for-unused-product', 'orders/shipments for a product the customer does not use: (period, node, customer, product, values) = %s' % (stray[0],), case)
     for sig, what in monitors(pid, spec, G, impl['total'], tol=TOL, multi=True):
         _fail(chk, 'multi-product|' + sig, what, case)
+    impl['spec'] = spec; impl['G'] = G
     return impl, coverage(spec, G)
+
+
+def model2_stream(chk, pid, items):
+    """Stage-2 model (coq/Sim2/Model2.v: multi-product networks with bills of materials) against the implementation: every field of every
+    period at 1e-9. The model computes in exact rationals, the implementation in binary64; a run whose first difference is explained by a
+    decision taken exactly ON a reorder point / base-stock level (the implementation's rounding error decides) is skipped and counted, as is
+    a case whose exact evaluation exceeds the time limit (denominators of proportional shares can double every few periods)."""
+    import sim2lib
+    try:
+        sim2lib.ensure_compiled()
+    except Exception as e:
+        chk.broken.append(('Sim2/Obs2.vo', str(e)[-600:])); return
+    args = []; keep = []
+    for c, impl in items:
+        try:
+            st, problems = sim2lib.struct2(impl['net'], impl['spec'])
+        except Exception as e:
+            chk.mismatch('structure tables of the Stage-2 model cannot be read from the implementation: %s' % str(e)[:200], c); continue
+        if problems:
+            chk.mismatch('configuration read from the implementation differs from the specification of the case: %s' % (problems[0],), c); continue
+        args.append((impl['spec'], st, {}, None)); keep.append((c, impl))
+    if not args: return
+    try:
+        Ms = sim2lib.run_model2(args, name=pid.lower() + 'm2', shard=4, timeout=(120 if chk.tier == 'quick' else 300), tolerate=True)
+    except Exception as e:
+        chk.broken.append(('model-evaluation-stage2', str(e)[-600:])); return
+    nskip = nslow = 0
+    for (c, impl), M in zip(keep, Ms):
+        if M is None:
+            nslow += 1; continue
+        diffs = sim2lib.compare2(impl['G'], impl['total'], M, 1e-9)
+        if diffs and sim2lib.flip_fixes(impl['spec'], impl['G'], M, diffs, 1e-9):
+            nskip += 1; continue
+        chk.traces += 1; chk.count('multi:stage2-model-compared')
+        if diffs:
+            d = diffs[0]
+            chk.mismatch('Stage-2 model vs implementation: %d field(s) differ, first (period, node, field, implementation, model) = (%s, %s, %s, %r, %r)'
+                         % (len(diffs), d[0], d[1], d[2], float(d[3]) if d[3] is not None else None, float(d[4]) if d[4] is not None else None), c)
+    chk.extra['stage2_threshold_tie_skipped'] = chk.extra.get('stage2_threshold_tie_skipped', 0) + nskip
+    chk.extra['stage2_exact_evaluation_too_slow_skipped'] = chk.extra.get('stage2_exact_evaluation_too_slow_skipped', 0) + nslow
 
 
 def check_probe(chk, sig, case):
@@ -1210,19 +1251,21 @@ def explore(chk, pid, n, n_multi=0, do_model=True):
             check_override(chk, pid, c)
             chk.count('stream=order_quantity_override'); chk.case(c, bool(c['overrides']))
     if n_multi and pid in MULTI_PROPS:
-        nm = 0
+        nm = 0; m2items = []
         for j in range(n_multi):
             big = chk.tier != 'quick' and j % 3 == 0
             c = gen_multi(rng, nmax=(8 if big else 5), tmax=(30 if big else 12)); c['mode'] = 'multi'
             c = multi_from_json(json.loads(json.dumps(jsonable(c))))       # what a replay will see
             impl, cov = check_multi(chk, pid, c)
+            if impl is not None and do_model: m2items.append((c, impl))
             chk.count('multi:kind=%s' % c['kind']); chk.count('multi:two-suppliers-of-one-raw-material=%s' % c['twins']); chk.count('multi:unused-product=%s' % c['unused']); chk.count('multi:bom-numbers-reset-after-build=%s' % bool(c.get('rebom')))
             for x in cov: chk.count('multi:branch:' + x)
             chk.case(c, impl is not None and 'BO>0' in cov and 'pipeline>0' in cov)
             nm += 1
+        if m2items: model2_stream(chk, pid, m2items)
         chk.extra['multi_product_cases'] = chk.extra.get('multi_product_cases', 0) + nm
-        chk.extra['multi_product_note'] = ('multi-product networks with bills of materials are outside the Coq model: monitors only (relative tolerance 1e-9), '
-                                           'no correspondence, no theorem')
+        chk.extra['multi_product_note'] = ('multi-product networks with bills of materials: monitors (relative tolerance 1e-9) + correspondence with the Stage-2 Gallina model '
+                                           'coq/Sim2/Model2.v on every field of every period (1e-9; runs decided by a rounding error exactly on a threshold are skipped and counted)')
         if pid == 'C01':
             for sig, c in multi_defect_probes():
                 c['mode'] = 'probe'; c['sig'] = sig
